@@ -3528,3 +3528,39 @@ def r09_13(ctx):
             ctx.need(ports, f"a test of the quoted source port in icmp::Socket::{nm}")
             ctx.ok((nm, 'ports only'), sample=dict(fn=f'icmp::Socket::{nm}', decides_on='quoted source port'))
     ctx.need(n == 2, "icmp accepts functions")
+
+
+@rule('R18.12', ['C18'], floor=1, clause='a lease is taken in the Requesting state only once a REQUEST has gone out: the (Requesting, Ack) arm of process() installs the configuration behind a test that the request counter is not zero (DISCOVER and REQUEST share the transaction id, so an ACK sent right after the OFFER would match)')
+def r18_12(ctx):
+    F = ctx.F
+    D = 'socket::dhcpv4::Socket'
+    RS = 'socket::dhcpv4::RenewState'
+    RQ = 'socket::dhcpv4::RequestState'
+    b = ctx.method(D, 'process')
+    sites = [bi for bi, si, var in agg_sites(b, RS)]
+    ctx.need(sites, "RenewState construction in dhcpv4 process()")
+    sent = lambda f: f[0] == 'rel' and any(l.endswith(f"{RQ}.retry") for l in leafs(f[2]) | leafs(f[3])) and \
+        ((f[1] in ('Gt', 'Ne') and const_of(strip(f[3])) == 0) or (f[1] == 'Ge' and (const_of(strip(f[3])) or 0) >= 1) or (f[1] == 'Lt' and const_of(strip(f[2])) == 0))
+    bad = unguarded(F, b, sites, sent)
+    if bad:
+        ctx.bad("dhcpv4::process|ack-before-request", "in the Requesting state process() takes a lease from an ACK without knowing that a REQUEST was ever sent (retry counter not examined): "
+                "an ACK carrying the DISCOVER's transaction id that arrives between the OFFER and the first REQUEST configures the client", body=b, bb=bad[0][0], path=bad[0][1])
+    else:
+        ctx.ok(('dhcpv4::process', 'ack after request'), sample=dict(arm='(Requesting, Ack)', guard='state.retry > 0'))
+
+
+@rule('R06.20', ['C06', 'C10'], floor=3, clause='mld::Repr::buffer_len() declares what emit writes for every kind of message: each arm of buffer_len depends on the variable part of its variant (the source list of a query, the record data of a report, the number of records of a report given as a record list) - none is a constant')
+def r06_20(ctx):
+    F = ctx.F
+    R = 'wire::mld::Repr'
+    b = ctx.method(R, 'buffer_len')
+    r = strip(simplify(ret_origin(F, b)))
+    n = 0
+    for a in alts(r):
+        n += 1
+        if const_of(a) is not None:
+            ctx.bad("mld::Repr::buffer_len|constant-arm", f"one arm of mld::Repr::buffer_len() is the constant {const_of(a)} although emit writes a variable-length part behind the fixed header "
+                    "(a report given as a list of records): emitting into a buffer of the declared length panics, and every user has to add the missing length itself", body=b)
+        else:
+            ctx.ok(('mld::buffer_len', show(a)[:40]), sample=dict(arm=show(a)[:70]))
+    ctx.need(n >= 3, f"arms of mld::Repr::buffer_len (found {n})")
